@@ -252,6 +252,19 @@ def c15(pid, tier, t0):
     }, ["a command list whose last command is rejected stops the global (ex convention, as in the implementation)", "current line after the global is not compared"])
 
 
+@check("C20")
+def c20(pid, tier, t0):
+    exe = nv.build_harness("c20_buffers", "plain", ["c20_buffers.c", "peek_ex.c", "peek_lbuf.c"], replace=["ex", "lbuf"], wraps=WRAPS)
+    res = nv.run_shards(exe, ["tier=" + tier, "deadline=%d" % dl(tier)], nv.NCPU, dl(tier) + 120)
+    return nv.finish(pid, tier, t0, res, {
+        "rule": "explicit-state search with state matching over {e f1|f2|f3|f4, e #, b 1..4, b +, b -, b #, b %, b ~, b !, 1d, $a|x|., u, w, 2 (move), external change of f2} with 3 and 4 files; "
+                "plus a 16-file run that fills the buffer table, rotates through every slot three times and reads back every buffer; distinct_nontrivial = distinct canonical states",
+        "depth_bound": res.stats.get("depth"),
+        "explanation": "after every operation: buffer table order and ids vs a most-recently-used reference; every non-current buffer's text, saved line and canonical undo history/dirty flag (peek) identical to "
+                       "the snapshot taken when it was left; the buffer reached by a switch identical to how it was left (so an open path is never re-read); twin probe of %p and $=",
+    }, ["which switches are refused is predicted from the editor's own dirty flag (its correctness is C02's subject)", "ex mode; the vi shortcuts (^^ zj zk zD) call the same ex commands"])
+
+
 def replay(path):
     print("replay artefact:")
     print(open(path).read())
